@@ -256,3 +256,21 @@ Definition optz_eqb (a b : option Z) : bool :=
 Definition nic_ok (r : nicprobe) : bool :=
   bytes_eqb (np_addr_out r) (post_addr (np_plat r) (np_in r))
   && optz_eqb (np_bcast_out r) (post_bcast (np_plat r) (np_in r)).
+
+(* ------------------------------------------------------------------ the cached name through the front end *)
+Definition optb_eqb (a b : option bytes) : bool :=
+  match a, b with None, None => true | Some x, Some y => bytes_eqb x y | _, _ => false end.
+Definition carries_name (r : res) : bool :=
+  match r with RNoSuch | RZombie | RDenied | RTimeout => true | _ => false end.
+(* probed history: a psutil exception carries the pid and exactly the name name() returned; all equal to the model *)
+Definition frow_ok (r : frow) : bool :=
+  (negb (carries_name (fr_cls r)) || (fr_pid_ok r && optb_eqb (fr_name r) (fr_returned r)))
+  && match fe_history_model (fr_plat r) (fr_kname r) (fr_cmd0 r) (fr_mode r) (fr_meth r) (fr_site r) (fr_err r) (fr_state r) with
+     | (ret, ORes cls nm) => optb_eqb ret (fr_returned r) && res_eqb cls (fr_cls r)
+                             && (negb (carries_name cls) || optb_eqb nm (fr_name r))
+     | _ => false
+     end.
+Definition frows_complete (rs : list frow) : bool :=
+  forallb (fun p => match p with Windows => true | _ =>
+             forallb (fun m => existsb (fun r => plat_eqb (fr_plat r) p && (fr_mode r =? m) && carries_name (fr_cls r)
+                                                 && (15 <=? Z.of_nat (List.length (fr_kname r)))) rs) [0; 1; 2] end) all_plats.
